@@ -5,6 +5,7 @@ package geomgen
 
 import (
 	"fmt"
+	"math"
 	"strings"
 
 	"github.com/ctessum/geom"
@@ -259,4 +260,114 @@ func pick(l []Skel, n int) []Skel {
 		o = append(o, l[i*step])
 	}
 	return o
+}
+
+// Diff compares two geometries structurally: same dynamic type, same nesting
+// and member counts (nil and empty slices are the same), and coordinates equal
+// bit for bit (bits=true) or by == (bits=false). It returns "" when equal.
+func Diff(a, b geom.Geom, bits bool) string {
+	eq := func(x, y float64) bool {
+		if bits {
+			return math.Float64bits(x) == math.Float64bits(y)
+		}
+		return x == y
+	}
+	pts := func(x, y []geom.Point, where string) string {
+		if len(x) != len(y) {
+			return fmt.Sprintf("%s: %d vertices vs %d", where, len(x), len(y))
+		}
+		for i := range x {
+			if !eq(x[i].X, y[i].X) || !eq(x[i].Y, y[i].Y) {
+				return fmt.Sprintf("%s vertex %d: (%x,%x) vs (%x,%x)", where, i, math.Float64bits(x[i].X), math.Float64bits(x[i].Y), math.Float64bits(y[i].X), math.Float64bits(y[i].Y))
+			}
+		}
+		return ""
+	}
+	if a == nil || b == nil {
+		if a == nil && b == nil {
+			return ""
+		}
+		return fmt.Sprintf("nil vs non-nil: %T vs %T", a, b)
+	}
+	switch x := a.(type) {
+	case geom.Point:
+		y, ok := b.(geom.Point)
+		if !ok {
+			return fmt.Sprintf("type %T vs %T", a, b)
+		}
+		return pts([]geom.Point{x}, []geom.Point{y}, "point")
+	case *geom.Bounds:
+		y, ok := b.(*geom.Bounds)
+		if !ok {
+			return fmt.Sprintf("type %T vs %T", a, b)
+		}
+		return pts([]geom.Point{x.Min, x.Max}, []geom.Point{y.Min, y.Max}, "bounds")
+	case geom.MultiPoint:
+		y, ok := b.(geom.MultiPoint)
+		if !ok {
+			return fmt.Sprintf("type %T vs %T", a, b)
+		}
+		return pts(x, y, "multipoint")
+	case geom.LineString:
+		y, ok := b.(geom.LineString)
+		if !ok {
+			return fmt.Sprintf("type %T vs %T", a, b)
+		}
+		return pts(x, y, "linestring")
+	case geom.MultiLineString:
+		y, ok := b.(geom.MultiLineString)
+		if !ok {
+			return fmt.Sprintf("type %T vs %T", a, b)
+		}
+		if len(x) != len(y) {
+			return fmt.Sprintf("multilinestring: %d members vs %d", len(x), len(y))
+		}
+		for i := range x {
+			if d := pts(x[i], y[i], fmt.Sprintf("line %d", i)); d != "" {
+				return d
+			}
+		}
+	case geom.Polygon:
+		y, ok := b.(geom.Polygon)
+		if !ok {
+			return fmt.Sprintf("type %T vs %T", a, b)
+		}
+		if len(x) != len(y) {
+			return fmt.Sprintf("polygon: %d rings vs %d", len(x), len(y))
+		}
+		for i := range x {
+			if d := pts(x[i], y[i], fmt.Sprintf("ring %d", i)); d != "" {
+				return d
+			}
+		}
+	case geom.MultiPolygon:
+		y, ok := b.(geom.MultiPolygon)
+		if !ok {
+			return fmt.Sprintf("type %T vs %T", a, b)
+		}
+		if len(x) != len(y) {
+			return fmt.Sprintf("multipolygon: %d members vs %d", len(x), len(y))
+		}
+		for i := range x {
+			if d := Diff(x[i], y[i], bits); d != "" {
+				return fmt.Sprintf("polygon %d: %s", i, d)
+			}
+		}
+	case geom.GeometryCollection:
+		y, ok := b.(geom.GeometryCollection)
+		if !ok {
+			return fmt.Sprintf("type %T vs %T", a, b)
+		}
+		if len(x) != len(y) {
+			return fmt.Sprintf("collection: %d members vs %d", len(x), len(y))
+		}
+		for i := range x {
+			if d := Diff(x[i], y[i], bits); d != "" {
+				return fmt.Sprintf("member %d: %s", i, d)
+			}
+		}
+	default:
+		return fmt.Sprintf("unknown type %T", a)
+	}
+	return ""
 }
